@@ -285,3 +285,56 @@ Theorem C05_lookup_roundtrip :
                    TrieProofs.is_prefix (utf8_bytes (r_surface r')) (utf8_bytes (r_surface r)) /\ e = utf8_len (r_surface r').
 Proof. exact (lookup_roundtrip_of C04.C04_lookup_exact_of_index_model C05_pos_limit C05_word_mask). Qed.
 Print Assumptions C05_lookup_roundtrip.
+
+(* ====================================================================================================================
+   Word ids: every entry of every dictionary that can be loaded is named by an id that decodes to (dictionary, word) and is
+   never taken for an out-of-vocabulary word.  WordId (sudachi/src/dic/word_id.rs) packs a 4-bit dictionary number and a
+   28-bit word number; dictionary number 0xF marks out-of-vocabulary words (Morpheme::dictionary_id = -1).  The model of
+   the encoding and of the stack is builder C's (Model/LexSet.v, constants regenerated into Generated/LexFacts.v /
+   Limits.v; C12_fifteenth_rejected / C12_dictionary_id_accessor are its statements for C12).  What C05 adds: the obligation
+   that the capacity constant MAX_DICTIONARIES is EXACTLY the out-of-vocabulary dictionary number, and the statements for the
+   words of a loaded stack. *)
+From SudachiVerif Require Proofs.LexSetProofs Proofs.CodecWordIdProofs Generated.LexFacts Generated.Limits.
+
+(* the shift amounts (write and read), the masks and the out-of-vocabulary number of WordId::new / dic / word / oov *)
+Fact C05_fact_word_id_layout : LexSetProofs.layout_ok = true.
+Proof. vm_compute. reflexivity. Qed.
+(* LexiconSet::is_full is `len >= MAX_DICTIONARIES`; MAX_DICTIONARIES = the dictionary number of WordId::oov = the number
+   WordId::is_oov tests; Morpheme::dictionary_id is `oov -> -1, else dic()`, dic() being the logical shift of the u32 *)
+Fact C05_fact_word_id_capacity : CodecWordIdProofs.wordid_capacity_ok = true.
+Proof. vm_compute. reflexivity. Qed.
+
+Theorem C05_word_id_roundtrip : forall dic word, dic < 16 -> word <= LexSet.WORD_MASK ->
+  LexSet.dic_of (LexSet.stamp dic word) = dic /\ LexSet.word_of (LexSet.stamp dic word) = word.
+Proof. exact (CodecWordIdProofs.word_id_roundtrip C05_fact_word_id_layout). Qed.
+Print Assumptions C05_word_id_roundtrip.
+
+Theorem C05_word_id_injective : forall d1 w1 d2 w2, d1 < 16 -> d2 < 16 -> w1 <= LexSet.WORD_MASK -> w2 <= LexSet.WORD_MASK ->
+  LexSet.stamp d1 w1 = LexSet.stamp d2 w2 -> d1 = d2 /\ w1 = w2.
+Proof. exact (CodecWordIdProofs.word_id_injective C05_fact_word_id_layout). Qed.
+Print Assumptions C05_word_id_injective.
+
+(* for ALL dictionary numbers below the capacity and ALL 28-bit word numbers: not out-of-vocabulary, dictionary id in 0..14 *)
+Theorem C05_loaded_word_never_oov : forall dic word, dic < Generated.Limits.MAX_DICTIONARIES -> word <= LexSet.WORD_MASK ->
+  LexSet.is_oov (LexSet.stamp dic word) = false /\ LexSet.reported_dic (LexSet.stamp dic word) = Z.of_N dic
+  /\ (0 <= LexSet.reported_dic (LexSet.stamp dic word) <= 14)%Z.
+Proof. exact (CodecWordIdProofs.loaded_word_never_oov C05_fact_word_id_layout C05_fact_word_id_capacity). Qed.
+Print Assumptions C05_loaded_word_never_oov.
+
+(* for ANY stack the loader accepts on top of a system dictionary: every dictionary d of it (its position) is below the
+   out-of-vocabulary number, and every word (d, w) decodes to (d, w), is not out-of-vocabulary and reports dictionary d *)
+Theorem C05_stack_words_never_oov : forall s us s', List.length (LexSet.s_words s) = 1%nat -> LexSet.merge_all s us = Some s' ->
+  forall d, (d < List.length (LexSet.s_words s'))%nat ->
+  N.of_nat d < Generated.LexFacts.OOV_DIC /\
+  forall word, word <= LexSet.WORD_MASK ->
+    LexSet.is_oov (LexSet.stamp (N.of_nat d) word) = false /\ LexSet.reported_dic (LexSet.stamp (N.of_nat d) word) = Z.of_nat d
+    /\ LexSet.dic_of (LexSet.stamp (N.of_nat d) word) = N.of_nat d /\ LexSet.word_of (LexSet.stamp (N.of_nat d) word) = word.
+Proof. exact (CodecWordIdProofs.stack_words_never_oov C05_fact_word_id_layout C05_fact_word_id_capacity). Qed.
+Print Assumptions C05_stack_words_never_oov.
+
+(* reading the dictionary number by an arithmetic shift of the signed value, `(raw as i32) >> 28`, is the dictionary id exactly
+   for the numbers 0..7 and the out-of-vocabulary marker -- not for the user dictionaries 8..14 *)
+Theorem C05_arithmetic_shift_agrees_iff : forall d word, d < 16 -> word <= LexSet.WORD_MASK ->
+  (CodecWordIdProofs.arith_dic (LexSet.stamp d word) = LexSet.reported_dic (LexSet.stamp d word) <-> d < 8 \/ d = 15).
+Proof. exact (CodecWordIdProofs.arith_shift_agrees_iff C05_fact_word_id_layout C05_fact_word_id_capacity). Qed.
+Print Assumptions C05_arithmetic_shift_agrees_iff.
